@@ -40,6 +40,15 @@ def run_case(col, r, idx):
             col.skip('document rejected by parse')
             return
         g = ops.Generator(_corpus, r, index_mode='grid')
+        # read every list view once, as a user inspecting the document would: this creates the cached views whose index tables
+        # must follow later edits made through other views of the same list
+        for _p, _m in walker.tree_models(f):
+            for _a, _d, _k in ops.catalog(type(_m)):
+                if _k in ops.LIST_KINDS:
+                    try:
+                        len(getattr(_m, _a))
+                    except Exception:
+                        pass
         nsteps = r.choice([1, 1, 2, 4, 12]) if col.tier == 'quick' else r.choice([1, 2, 6, 12, 40])
         log = []
         for s in range(nsteps):
@@ -89,6 +98,13 @@ def run_case(col, r, idx):
                 wit['after'] = common.store_text(f.token_store)
                 col.violation(f'{errs[0][0]}:{op.kind}', f'{op.desc}: {errs[0][1]}', dict(wit, all=[e[0] for e in errs[:5]]))
                 return
+            if op.list_check is not None:
+                # which child the call adds/removes/replaces is defined by list semantics: anything else touched a sibling
+                msg = op.list_check()
+                if msg:
+                    wit['after'] = common.store_text(f.token_store)
+                    col.violation(f'wrong-child-affected:{op.kind}', f'{op.desc}: the call changed another element than the one it addresses ({msg})', wit)
+                    return
             if items_before is not None:
                 try:
                     items_after = list(getattr(op.parent, op.list_attr))
